@@ -211,13 +211,15 @@ class Timeout:
 
 
 def pmap(fn, cases, *, init=None, chunk=64, budget_s=20.0, nproc=None, on_timeout=None,
-         label=""):
+         label="", max_timeouts=48):
     """Run fn(case, acc) for every case, in worker processes, and return the
     merged Acc.  `cases` is any iterable of picklable cases (consumed lazily).
 
     Watchdog: a case that runs longer than `budget_s` gets its worker killed;
     `on_timeout(case, acc)` records it (normally as a violation) and the rest
     of the chunk is re-queued.  Exceptions escaping fn are harness errors.
+    After `max_timeouts` timed-out cases the family is abandoned (the violations are already recorded; a tree on
+    which thousands of cases hang would otherwise keep the run busy for hours): counter `aborted_after_timeouts`.
     """
     nproc = nproc or NPROC
     ctx = mp.get_context("fork")
@@ -265,6 +267,8 @@ def pmap(fn, cases, *, init=None, chunk=64, budget_s=20.0, nproc=None, on_timeou
     exhausted = False
     requeue = []
     fatal = None
+    aborted = False
+    ntimeouts = 0
     try:
         while True:
             # feed
@@ -312,6 +316,11 @@ def pmap(fn, cases, *, init=None, chunk=64, budget_s=20.0, nproc=None, on_timeou
                             break
                         on_timeout(case, total)
                         total.evaluations += 1
+                        ntimeouts += 1
+                        if ntimeouts >= max_timeouts:
+                            total.counters["aborted_after_timeouts"] = ntimeouts
+                            aborted = True
+                            break
                         # results of cases before idx in this chunk are lost with
                         # the worker: redo them (idempotent), skip the offender.
                         rest = ch[:idx] + ch[idx + 1 :]
@@ -324,10 +333,10 @@ def pmap(fn, cases, *, init=None, chunk=64, budget_s=20.0, nproc=None, on_timeou
                 elif not p.is_alive() and p.exitcode not in (0, None):
                     fatal = f"worker {wid} died with exit code {p.exitcode}"
                     break
-            if fatal:
+            if fatal or aborted:
                 break
     finally:
-        if fatal:
+        if fatal or aborted:
             for p in workers.values():
                 if p.is_alive():
                     p.kill()
@@ -427,6 +436,8 @@ class Context:
             **{k: v for k, v in acc.counters.items()},
             **info,
         }
+        if acc.counters.get("aborted_after_timeouts"):
+            self.cap_hit(f"family {name} abandoned after {acc.counters['aborted_after_timeouts']} timed-out cases (all reported)")
         self.acc.merge(acc)
         self.log(f"family {name}: {json.dumps(self.families[name], default=str)}")
 
